@@ -164,7 +164,7 @@ def main():
             },
         ],
         "checks": checks,
-        "notes": "Known findings: /verif/known_findings.jsonl. Exit codes: 0 held, 1 VIOLATION, 2 inconclusive (build failure / watchdog / harness error).",
+        "notes": "Known findings: /verif/known_findings.txt (one open: C09 c09-final-duplicate-redelivered; the `fixed:` lines name the `fix:` commits in /repo). Exit codes: 0 held, 1 VIOLATION, 2 inconclusive (build failure / watchdog / harness error). Design, findings, seeded changes and their detection: /verif/DESIGN.md.",
         "not_applicable": na,
     }
     json.dump(manifest, open("/verif/MANIFEST.json", "w"), indent=1)
